@@ -94,8 +94,9 @@ impl MZone {
     // ------------------------------------------------------------------ leap scale
     /// UTC instant at which leap record i takes effect: U_i = L_i - c_{i-1}
     pub fn leap_utc(&self, i: usize) -> i64 {
+        // beyond the i64 range the instant is never reached: saturate
         let prev = if i == 0 { 0 } else { self.leaps[i - 1].1 as i64 };
-        self.leaps[i].0 - prev
+        self.leaps[i].0.saturating_sub(prev)
     }
     /// UTC -> count: u + c_i for the last i with U_i <= u
     pub fn to_count(&self, u: i64) -> Option<i64> {
@@ -144,7 +145,8 @@ impl MZone {
     pub fn deleted(&self, u: i64) -> bool {
         for i in 0..self.leaps.len() {
             let prev = if i == 0 { 0 } else { self.leaps[i - 1].1 };
-            if self.leaps[i].1 < prev && self.leap_utc(i) == u {
+            let ui = self.leaps[i].0 as i128 - prev as i128;
+            if self.leaps[i].1 < prev && ui == u as i128 {
                 return true;
             }
         }
